@@ -9,7 +9,6 @@ import (
 
 	"github.com/bronlabs/bron-crypto/pkg/base/algebra"
 	ds "github.com/bronlabs/bron-crypto/pkg/base/datastructures"
-	"github.com/bronlabs/bron-crypto/pkg/base/datastructures/bitset"
 	"github.com/bronlabs/bron-crypto/pkg/base/datastructures/hashset"
 	"github.com/bronlabs/bron-crypto/pkg/base/mat"
 	"github.com/bronlabs/bron-crypto/pkg/base/utils/sliceutils"
@@ -158,6 +157,15 @@ func normaliseCNF(unqualifiedSets ...ds.Set[ID]) ([]ds.Set[ID], error) {
 	return maximalSets, nil
 }
 
+// compareAsBitmasks orders sets as the integers sum(2^(id-1)) would be ordered, i.e. by the
+// largest element in which they differ, without materialising the bitmask (IDs may exceed 64).
+func compareAsBitmasks(a, b ds.Set[ID]) int {
+	as, bs := a.List(), b.List()
+	slices.SortFunc(as, func(x, y ID) int { return cmp.Compare(y, x) })
+	slices.SortFunc(bs, func(x, y ID) int { return cmp.Compare(y, x) })
+	return slices.Compare(as, bs)
+}
+
 // InducedMSP constructs a monotone span programme from a CNF access
 // structure. Each clause yields one block of rows, one per clause member.
 func InducedMSP[E algebra.PrimeFieldElement[E]](f algebra.PrimeField[E], c *CNF) (*msp.MSP[E], error) {
@@ -179,11 +187,7 @@ func InducedMSP[E algebra.PrimeFieldElement[E]](f algebra.PrimeField[E], c *CNF)
 	// verification in protocols that independently reconstruct the MSP
 	// (e.g. Gennaro DKG over KW).
 	sortedMUS := slices.Clone(c.maximalUnqualifiedSets)
-	slices.SortFunc(sortedMUS, func(a, b ds.Set[ID]) int {
-		ba := bitset.NewImmutableBitSet(a.List()...)
-		bb := bitset.NewImmutableBitSet(b.List()...)
-		return cmp.Compare(uint64(ba), uint64(bb))
-	})
+	slices.SortFunc(sortedMUS, compareAsBitmasks)
 
 	m := len(sortedMUS)
 	clauses := sliceutils.Map(sortedMUS, func(bi ds.Set[ID]) ds.Set[ID] {
